@@ -181,6 +181,11 @@ pub struct WireReq {
     /// 0 PING, 1 FINDNODE, 2 TALK
     pub body: u8,
     pub requests: u8,
+    /// before the requests: the answering node itself contacts the requester WITHOUT knowing its record
+    /// (Discv5 API with a bare address + key); its internal record request stays unanswered, so the
+    /// requester's requests arrive while the answering node still waits for that record
+    #[serde(default)]
+    pub awaiting_record: bool,
 }
 
 async fn run_wire(c: &WireReq, rep: &mut CaseReport) -> Option<(String, String)> {
@@ -194,10 +199,10 @@ async fn run_wire(c: &WireReq, rep: &mut CaseReport) -> Option<(String, String)>
         filter: false,
         wru_mode: vec![AppMode::Immediate; 4],
         wru_know: vec![know; 4],
-        resp_mode: vec![AppMode::Immediate; 4],
+        resp_mode: if c.awaiting_record { vec![AppMode::Immediate, AppMode::Manual, AppMode::Immediate, AppMode::Immediate] } else { vec![AppMode::Immediate; 4] },
         nodes_packets: 1,
         seqs: vec![2; 4],
-        nat_peers: vec![1],
+        nat_peers: if c.awaiting_record { vec![] } else { vec![1] },
         nat_kind: c.nat_kind % 4,
         dual_records: false,
         foreign_enr_answer: vec![],
@@ -209,6 +214,22 @@ async fn run_wire(c: &WireReq, rep: &mut CaseReport) -> Option<(String, String)>
     rep.class("wire-companion");
     rep.class(format!("wire-companion/requester-record-kind-{}", c.nat_kind % 4));
     let body = [Body::Ping, Body::FindNode(1), Body::Talk(5)][(c.body % 3) as usize];
+    if c.awaiting_record {
+        act(&mut w, &Op::Submit { from: 0, to: 1, body: Body::Ping, with_record: false });
+        w.settle().await;
+        w.step += 1;
+        let mut guard = 0;
+        while !w.pool.is_empty() && guard < 60 {
+            guard += 1;
+            let idx = w.pool.remove(0);
+            w.deliver_logged(idx);
+            w.settle().await;
+            w.step += 1;
+        }
+        if w.snaps[0].sessions.iter().any(|s| s.addr.socket_addr == w.nodes[1].addr) && w.snaps[0].active.iter().any(|a| a.internal) {
+            rep.class("wire-companion/requests-arrive-while-the-answering-node-awaits-the-requester's-record");
+        }
+    }
     for _ in 0..c.requests.clamp(1, 3) {
         let ev0 = w.events.len();
         act(&mut w, &Op::Submit { from: 1, to: 0, body, with_record: true });
@@ -555,11 +576,11 @@ impl Property for C14 {
             proptest::collection::vec(big_step, 1..3),
         )
             .prop_map(|(dual, entries, max_nodes, steps)| Case { dual, entries, max_nodes, steps, wire: None, pipe: None, local_no_socket: false });
-        let wire = (0u8..4, 0u8..3, 0u8..3, 1u8..=3).prop_map(|(nat_kind, know, body, requests)| Case { dual: false, entries: vec![], max_nodes: None, steps: vec![], wire: Some(WireReq { nat_kind, know, body, requests }), pipe: None, local_no_socket: false });
+        let wire = (0u8..4, 0u8..3, 0u8..3, 1u8..=3, prop_oneof![2 => Just(false), 1 => Just(true)]).prop_map(|(nat_kind, know, body, requests, awaiting_record)| Case { dual: false, entries: vec![], max_nodes: None, steps: vec![], wire: Some(WireReq { nat_kind, know, body, requests, awaiting_record }), pipe: None, local_no_socket: false });
         // record sizes that let the service's packing end a packet anywhere up to its bound of 1175 bytes
         let size = prop_oneof![3 => 100u16..=300, 2 => 286u16..=294, 1 => 230u16..=236, 1 => 191u16..=196, 1 => 164u16..=168];
         let pipe = proptest::collection::vec(size, 4..=16).prop_map(|sizes| Case { dual: false, entries: vec![], max_nodes: None, steps: vec![], wire: None, pipe: Some(Pipe { sizes }), local_no_socket: false });
-        prop_oneof![60 => ordinary, 2 => big, 1 => wire, 4 => pipe].boxed()
+        prop_oneof![60 => ordinary, 2 => big, 2 => wire, 4 => pipe].boxed()
     }
     fn run(case: &Case) -> CaseReport {
         let mut rep = CaseReport::default();
@@ -582,7 +603,7 @@ impl Property for C14 {
         rep
     }
     fn rule() -> String {
-        "a real Discv5 service with a scripted handler (IPv4 or dual stack, max_nodes_response default 16 or 1..20; one case in 31: 46..120 with a table of 70..129 records and requests for 5 or 17 distances, i.e. answers of up to ~40 packets) whose table holds 0..59 signed pool records of 100..300 bytes (60% exactly 300 bytes) in the reachable buckets; 1..7 injected requests: FINDNODE with distance lists that are empty / duplicated / unsorted / contain 0, 256, values > 256 (assertion-free) / up to 400 entries / the d,d+1,d-1 lists lookups generate, request ids of 0..8 bytes, requester = a stored node, a stranger (private, public or loopback address), an IPv6 stranger; in one case in 6 the answering node's own record advertises no socket yet; PING with arbitrary enr_seq from a normal source or source port 0; local record changes in between. Oracle on the HandlerIn::Response values the service emits: N1 id, destination, total = number of packets >= 1; N2 local record iff 0 requested, every other record is the stored record of a table entry at a requested distance, never the requester's, no duplicates, at most max_nodes_response, at least min(eligible, max[-1]); N3 each packet, encoded with the real message codec and wrapped as a message datagram with the real packet codec, is <= 1280 bytes; G1 exactly one PONG with the request id, the current local seq and the observed source ip/port; none for port 0. Distance lists: one in 11 is 200..1150 repeats of one distance followed by 1..3 others. Four cases in 67 compose service and handler (pipe companion): a real service whose table holds 4..16 records of 100..300 bytes (sizes chosen so that its packing ends packets anywhere up to the bound of 1175 bytes of records) answers a FINDNODE; its NODES packets are handed to a real handler that holds a session with the requester; each must appear on the wire exactly once, as sent, in a datagram of at most 1280 bytes. One case in 67 is a wire-engine companion (real handlers): a peer whose record advertises another ip and port / another port / another ip / nothing than the address it sends from, known to the answering node with its current record, an older one or not at all, sends 1..3 PING / FINDNODE / TALK requests over a loss-free wire: each must reach the answering node's application as coming from the observed address and be answered. Non-trivial = >=4 records of >=280 bytes forcing a split, or distance 0 together with other distances.".into()
+        "a real Discv5 service with a scripted handler (IPv4 or dual stack, max_nodes_response default 16 or 1..20; one case in 31: 46..120 with a table of 70..129 records and requests for 5 or 17 distances, i.e. answers of up to ~40 packets) whose table holds 0..59 signed pool records of 100..300 bytes (60% exactly 300 bytes) in the reachable buckets; 1..7 injected requests: FINDNODE with distance lists that are empty / duplicated / unsorted / contain 0, 256, values > 256 (assertion-free) / up to 400 entries / the d,d+1,d-1 lists lookups generate, request ids of 0..8 bytes, requester = a stored node, a stranger (private, public or loopback address), an IPv6 stranger; in one case in 6 the answering node's own record advertises no socket yet; PING with arbitrary enr_seq from a normal source or source port 0; local record changes in between. Oracle on the HandlerIn::Response values the service emits: N1 id, destination, total = number of packets >= 1; N2 local record iff 0 requested, every other record is the stored record of a table entry at a requested distance, never the requester's, no duplicates, at most max_nodes_response, at least min(eligible, max[-1]); N3 each packet, encoded with the real message codec and wrapped as a message datagram with the real packet codec, is <= 1280 bytes; G1 exactly one PONG with the request id, the current local seq and the observed source ip/port; none for port 0. Distance lists: one in 11 is 200..1150 repeats of one distance followed by 1..3 others. Four cases in 68 compose service and handler (pipe companion): a real service whose table holds 4..16 records of 100..300 bytes (sizes chosen so that its packing ends packets anywhere up to the bound of 1175 bytes of records) answers a FINDNODE; its NODES packets are handed to a real handler that holds a session with the requester; each must appear on the wire exactly once, as sent, in a datagram of at most 1280 bytes. Two cases in 68 are a wire-engine companion (real handlers): a peer whose record advertises another ip and port / another port / another ip / nothing than the address it sends from, known to the answering node with its current record, an older one or not at all, sends 1..3 PING / FINDNODE / TALK requests over a loss-free wire: each must reach the answering node's application as coming from the observed address and be answered. Non-trivial = >=4 records of >=280 bytes forcing a split, or distance 0 together with other distances.".into()
     }
     fn assumptions() -> Vec<String> {
         vec![
